@@ -32,9 +32,11 @@ def gen_cl_small(rng, n, limits=False):
         if limits:
             mb = rng.choice([0, 1, d - 1, d, d + 1, max(0, d // 2), d + 50, -1])
             mb = max(mb, -1)
-        style = rng.choice(['full', 'short', 'short', 'byte'])
+        style = rng.choice(['full', 'short', 'short', 'byte', 'plain'])
         data = rand_bytes(rng, d)
-        if style == 'full':
+        if style == 'plain':
+            t = bl.run_real('cl', data, cl, buf, mb, ctype=rng.choice(bl.CTYPES), plain=rng.choice([0, 0, 3, 40]))
+        elif style == 'full':
             t = bl.run_real('cl', data, cl, buf, mb, ctype=rng.choice(bl.CTYPES))
         elif style == 'byte':
             t = bl.run_real('cl', data, cl, buf, mb, schedule=[1] * (d + 2), ctype=rng.choice(bl.CTYPES))
